@@ -24,7 +24,7 @@ class LookupFsDev(fs.fsDev):
             if st is None or any(
                 f(st.st_mode) for f in (stat.S_ISREG, stat.S_ISDIR, stat.S_ISFIFO)
             ):
-                kwds["strict"] = True
+                kwds["strict"] = False
             else:
                 major, minor = fs.get_major_minor(st)
                 kwds["major"] = major
